@@ -93,7 +93,7 @@ var c09Catalogue = []violation{
 			m.Conds = genConds(rng, 1)
 		}
 		dup := m.Conds[rng.Intn(len(m.Conds))]
-		dup.Expr = "1 == 1"
+		dup.Expr = []string{"1 == 1", "1 == 1", ""}[rng.Intn(3)]
 		pos := rng.Intn(len(m.Conds) + 1)
 		m.Conds = append(m.Conds[:pos], append([]Cond{dup}, m.Conds[pos:]...)...)
 		return true
